@@ -213,6 +213,77 @@ theorem pole_roundtrip (E : Ellipsoid ℝ) (hf : E.f < 1) (z : ℝ) :
 
 end Structure
 
+/-! ## the one-step Halley scheme is exact on the ellipsoid -/
+
+section Surface
+
+/-- for a point **on the ellipsoid** — `p = a cos β`, `|z| = b sin β` with reduced latitude `β`,
+not a pole — the single Halley step of `_trs2llh` returns the exact answer: the tangent of the
+latitude is `s1/cc = tan β / (1 − f)` (the geodetic latitude of that surface point), `cc > 0`, and
+the height formula gives exactly 0 -/
+theorem halley_exact_on_surface (E : Ellipsoid ℝ) (ha : 0 < E.a) (hf1 : E.f < 1)
+    (C S : ℝ) (hCS : C ^ 2 + S ^ 2 = 1) (hC : 0 < C) :
+    let sc := halley E (E.a * C) (E.b * S)
+    sc.1 * ((1 - E.f) * C) = sc.2 * S ∧ 0 < sc.2 ∧
+      halleyHeight E (E.a * C) (E.b * S) sc.1 sc.2 = 0 := by
+  intro sc
+  have hq : 0 < 1 - E.f := by linarith
+  set q := 1 - E.f with hqd
+  have ha0 : E.a ≠ 0 := ha.ne'
+  have he2 : E.e2 = 1 - q ^ 2 := by
+    have := (ellipsoid_params E ha0).2.2
+    rw [← hqd] at this
+    linarith
+  have hb : E.b = E.a * q := rfl
+  -- the quantities of the scheme at a surface point
+  have hec : Real.sqrt (1 - E.e2) = q := by
+    rw [he2, show 1 - (1 - q ^ 2) = q ^ 2 by ring, Real.sqrt_sq hq.le]
+  have hs0 : E.b * S / E.a = q * S := by rw [hb]; field_simp
+  have hpn : E.a * C / E.a = C := by field_simp
+  have hrad : q * C * (q * C) + q * S * (q * S) = q ^ 2 := by linear_combination (q ^ 2) * hCS
+  have ha0' : Real.sqrt (q * C * (q * C) + q * S * (q * S)) = q := by rw [hrad, Real.sqrt_sq hq.le]
+  have hC2 : C ^ 2 ≤ 1 := by nlinarith [sq_nonneg S]
+  have hm : 0 < 1 - (1 - q ^ 2) * C ^ 2 := by
+    have : 0 < q ^ 2 := by positivity
+    nlinarith [sq_nonneg C]
+  -- closed forms of s1 and cc
+  have hs1 : sc.1 = q ^ 6 * C * (1 - (1 - q ^ 2) * C ^ 2) ^ 2 * S := by
+    simp only [sc, halley, trig_sqrt, cube]
+    rw [hec, hs0, hpn, ha0', he2]
+    linear_combination (q ^ 6 * S * C * (1 - (1 - q ^ 2) * C ^ 2) * (1 - q ^ 2)) * hCS
+  have hcc : sc.2 = q ^ 6 * C * (1 - (1 - q ^ 2) * C ^ 2) ^ 2 * (q * C) := by
+    simp only [sc, halley, trig_sqrt, cube]
+    rw [hec, hs0, hpn, ha0', he2]
+    ring
+  set K := q ^ 6 * C * (1 - (1 - q ^ 2) * C ^ 2) ^ 2 with hK
+  have hKpos : 0 < K := by positivity
+  refine ⟨?_, ?_, ?_⟩
+  · rw [hs1, hcc]; ring
+  · rw [hcc]; positivity
+  · simp only [halleyHeight, trig_sqrt, hs1, hcc, he2, hb]
+    have h1 : (1 - (1 - q ^ 2)) * (K * S * (K * S)) + K * (q * C) * (K * (q * C)) = (q * K) ^ 2 := by
+      linear_combination (q ^ 2 * K ^ 2) * hCS
+    rw [h1, Real.sqrt_sq (by positivity)]
+    have h2 : E.a * C * (K * (q * C)) + E.a * q * S * (K * S) - E.a * (q * K) = 0 := by
+      linear_combination (E.a * q * K) * hCS
+    rw [h2, zero_div]
+
+/-- … and that answer converts back to the input: a latitude whose `(cos, sin)` is the positive
+multiple `k·((1 − f) cos β, sin β)` — exactly what `s1/cc` above describes — and height 0 give
+`llh2trs = (a cos β cos λ, a cos β sin λ, b sin β)` -/
+theorem surface_point_roundtrip (E : Ellipsoid ℝ) (hf1 : E.f < 1)
+    (C S k co so : ℝ) (hCS : C ^ 2 + S ^ 2 = 1) (hk : 0 < k) :
+    llh2trsCS E (k * ((1 - E.f) * C)) (k * S) co so 0 = ⟨E.a * C * co, E.a * C * so, E.b * S⟩ := by
+  have hq : 0 < 1 - E.f := by linarith
+  have hrad : k * ((1 - E.f) * C) * (k * ((1 - E.f) * C)) + (1 - E.f) * (1 - E.f) * (k * S * (k * S))
+      = (k * (1 - E.f)) ^ 2 := by
+    linear_combination (k ^ 2 * (1 - E.f) ^ 2) * hCS
+  have hs : Real.sqrt (k * ((1 - E.f) * C) * (k * ((1 - E.f) * C)) + (1 - E.f) * (1 - E.f) * (k * S * (k * S)))
+      = k * (1 - E.f) := by rw [hrad, Real.sqrt_sq (by positivity)]
+  apply V3.ext' <;> simp only [llh2trsCS, trig_sqrt, hs, Ellipsoid.b] <;> field_simp <;> ring
+
+end Surface
+
 /-! ## the ellipsoid attribute flow -/
 
 section Flow
@@ -316,6 +387,8 @@ end Midgard.Props.C05
 #print axioms Midgard.Props.C05.trs2llh_reflect_z
 #print axioms Midgard.Props.C05.trs2llh_pole
 #print axioms Midgard.Props.C05.pole_roundtrip
+#print axioms Midgard.Props.C05.halley_exact_on_surface
+#print axioms Midgard.Props.C05.surface_point_roundtrip
 #print axioms Midgard.Props.C05.resolve_subset
 #print axioms Midgard.Props.C05.step_keeps
 #print axioms Midgard.Props.C05.ell_flow
